@@ -51,6 +51,7 @@ fn main() {
                 let res = std::panic::catch_unwind(|| match mode {
                     "bdd" => bddmode::run(&req),
                     "compile" => compilemode::run(&req),
+                    "det" => compilemode::run_det(&req),
                     _ => panic!("unknown mode"),
                 });
                 match res {
